@@ -158,6 +158,14 @@ def ring(R):
     return out
 
 
+def _rbounds(rnd, R):
+    """radius bounds around the generating radius; one of them may equal it (both bounds are inclusive), never both at once -
+    a candidate through three exact points has its radius only to the last ulp"""
+    rmin = rnd.choice((-1, R - 2, R - 1, R))
+    rmax = rnd.choice((-1, R + 2, R + 1)) if rmin == R else rnd.choice((-1, R + 2, R + 1, R))
+    return {'rmin': rmin, 'rmax': rmax}
+
+
 def gen_c09_circles(rnd, tier):
     out = []
     # exact arcs and subsets, random centres / guesses / scales / modes
@@ -249,5 +257,5 @@ def gen_c09_circles(rnd, tier):
         allp = pts + outl
         rnd.shuffle(allp)
         out.append({'m': 'fit', 'op': 'ransac', 'R': R, 'ctr': list(ctr), 'pts': allp, 'sc': rnd.choice((0, -10, 4)), 'tolN': 1, 'tolD': rnd.choice((2, 4, 8)),
-                    'iters': rnd.choice((0, 0, 200, 300)), 'rmin': rnd.choice((-1, R - 2, R - 1)), 'rmax': rnd.choice((-1, R + 2, R + 1))})
+                    'iters': rnd.choice((0, 0, 200, 300)), **_rbounds(rnd, R)})
     return out
